@@ -49,3 +49,68 @@ Proof.
 Qed.
 
 End WithNum.
+
+(** ---- C11: structural facts about the search of the polynomial predictor ---- *)
+Section Poly.
+Context {N : NumOps}.
+
+(** the brute-force search never answers a day before the start day, unless it fell back to the
+    "last share" estimate (start + int(distance / last share)) *)
+Lemma pf_predict_loop_split (p : polyfit N) : forall a b d sd cd r,
+  pf_predict_loop (a + b) p d sd cd r =
+  match pf_predict_loop a p d sd cd r with
+  | LDone z => LDone z
+  | LOutOfFuel cd' r' => pf_predict_loop b p d sd cd' r'
+  end.
+Proof.
+  induction a as [|k IH]; intros b d sd cd r; [reflexivity|].
+  cbn [Nat.add pf_predict_loop].
+  destruct (kltb N (k0 N) r); [|reflexivity].
+  destruct (pf_predict_y p cd) as [dd|]; [|reflexivity].
+  destruct (kltb N (k0 N) dd); [apply IH|reflexivity].
+Qed.
+
+(** running block by block is running the plain loop with the product as fuel *)
+Lemma pf_predict_blocks_eq (p : polyfit N) block : forall blocks d sd cd r,
+  pf_predict_blocks blocks block p d sd cd r = pf_predict_loop (blocks * block) p d sd cd r.
+Proof.
+  induction blocks as [|k IH]; intros d sd cd r; [reflexivity|].
+  cbn [pf_predict_blocks Nat.mul]. rewrite pf_predict_loop_split.
+  destruct (pf_predict_loop block p d sd cd r); [reflexivity|apply IH].
+Qed.
+
+Lemma pf_predict_eq_loop (p : polyfit N) d sd :
+  pf_predict p d sd = match sm_ys (pf_sm p) with [] => None | _ => Some (pf_predict_loop predict_fuel p d sd sd d) end.
+Proof. unfold pf_predict, predict_fuel. rewrite pf_predict_blocks_eq. reflexivity. Qed.
+
+Lemma pf_predict_loop_not_early (p : polyfit N) : forall fuel d sd cd r z,
+  sd <= cd -> pf_predict_loop fuel p d sd cd r = LDone z ->
+  sd <= z \/ z = sd + ktruncZ N (kdiv N d (last_y (pf_sm p))).
+Proof.
+  induction fuel as [|k IH]; intros d sd cd r z Hc; cbn [pf_predict_loop]; [discriminate|].
+  destruct (kltb N (k0 N) r).
+  - destruct (pf_predict_y p cd) as [dd|].
+    + destruct (kltb N (k0 N) dd).
+      * intros E. apply (IH d sd (cd + 1) _ z ltac:(lia) E).
+      * intros E. injection E as <-. right. reflexivity.
+    + intros E. injection E as <-. right. reflexivity.
+  - intros E. injection E as <-. left. exact Hc.
+Qed.
+
+Theorem pf_predict_not_early (p : polyfit N) d sd z :
+  pf_predict p d sd = Some (LDone z) ->
+  sd <= z \/ z = sd + ktruncZ N (kdiv N d (last_y (pf_sm p))).
+Proof.
+  rewrite pf_predict_eq_loop. generalize predict_fuel. intros fuel. destruct (sm_ys (pf_sm p)); [discriminate|]. intros E.
+  assert (E' : pf_predict_loop fuel p d sd sd d = LDone z) by congruence.
+  eapply pf_predict_loop_not_early; [|exact E']. lia.
+Qed.
+
+(** an empty predictor answers "no prediction" (the caller then uses the day after the trip) *)
+Lemma pf_predict_empty (p : polyfit N) d sd : sm_ys (pf_sm p) = [] -> pf_predict p d sd = None.
+Proof. intros H. unfold pf_predict. rewrite H. reflexivity. Qed.
+
+Lemma bf_predict_uninitialised (b : bestfit N) bal start : kltb N (bf_c b) (k0 N) = true -> bf_predict b bal start = None.
+Proof. intros H. unfold bf_predict. rewrite H. reflexivity. Qed.
+
+End Poly.
